@@ -56,7 +56,7 @@ def work(item):
     fixtures.register()
     tree_nodes, lo, hi = item
     part = core.Part()
-    for label, v in itertools.islice(corpus.everything(tree_nodes), lo, hi):
+    for label, v in corpus.materialised(tree_nodes)[lo:hi]:
         check_value(label, v, part)
     return part
 
@@ -64,7 +64,7 @@ def work(item):
 def run_into(res, tier, seed):
     fixtures.register()
     tree_nodes = 3
-    total = sum(1 for _ in corpus.everything(tree_nodes))
+    total = len(corpus.materialised(tree_nodes))
     res.add(core.pmap(work, [(tree_nodes, lo, hi) for lo, hi in core.chunks(total, 192)]))
     return {'corpus_values': total, 'one_line_values': res.agg.c['one_line_values'], 'prints': res.agg.c['value_prints']}
 
